@@ -140,6 +140,7 @@ type RStep struct {
 	HoldSink bool `json:"holdsink,omitempty"` // like hold, but the handler is parked inside the accounting sink, before the record is formatted
 	Hold     bool `json:"hold,omitempty"`     // park this request's handler at its first logger call while the following steps of OTHER connections run
 	Pws      []BS `json:"pws,omitempty"`      // passwords carried by this step (labels for C18)
+	Par      bool `json:"par,omitempty"`      // feed and go on without waiting for the reply (the next steps of OTHER connections overlap it)
 	Cut      int  `json:"cut,omitempty"`      // drop this many octets from the end of the encoded body (the header announces the shortened length)
 	CKey     BS   `json:"ckey,omitempty"`     // the key THE CLIENT obfuscates with (default: whatever key the server bound the connection to)
 }
@@ -216,7 +217,11 @@ func bcryptHex(pw []byte) string {
 	if h, ok := hashCache[string(pw)]; ok {
 		return h
 	}
-	hb, err := xbcrypt.GenerateFromPassword(pw, xbcrypt.MinCost)
+	cost := xbcrypt.MinCost
+	if strings.HasPrefix(string(pw), "slow-") {
+		cost = 10 // a comparison that takes tens of milliseconds: room for another connection's login to overlap it
+	}
+	hb, err := xbcrypt.GenerateFromPassword(pw, cost)
 	if err != nil {
 		panic(err)
 	}
@@ -608,7 +613,7 @@ func (r *refRun) open(c int, addr string, extra E) *refConnState {
 
 func (r *refRun) feed(st *refConnState, s *RStep, i int) bool {
 	closed := r.feed0(st, s, i)
-	if !s.Hold && !s.HoldSink {
+	if !s.Hold && !s.HoldSink && !s.Par {
 		r.drainSyslog()
 	}
 	return closed
@@ -655,8 +660,8 @@ func (r *refRun) feed0(st *refConnState, s *RStep, i int) bool {
 	}
 	r.rec.Emit(E{"e": "feed", "c": st.c, "i": i, "h": B(hdr), "b": B(wire), "cb": B(body), "sk": B(st.key), "ck": B(ck), "pws": pws})
 	st.conn.Feed(append(append([]byte{}, hdr...), wire...))
-	if s.Hold || s.HoldSink {
-		return false // the caller waits for the gate, not for quiescence
+	if s.Hold || s.HoldSink || s.Par {
+		return false // the caller waits for the gate / for all overlapping requests, not for quiescence
 	}
 	return st.conn.WaitQuiesce()
 }
@@ -693,6 +698,7 @@ func (r *refRun) runScenario(sc *RScen) {
 	}
 	var held *refConnState
 	var release chan struct{}
+	var inflight []*refConnState // connections with a request fed and not yet waited for (par steps)
 	conns := map[int]*refConnState{}
 	addr := map[int]string{}
 	for _, c := range sc.Conns {
@@ -710,6 +716,15 @@ func (r *refRun) runScenario(sc *RScen) {
 			st = r.open(s.C, a, nil)
 			conns[s.C] = st
 		}
+		if s.Par {
+			r.feed(st, s, i+1)
+			inflight = append(inflight, st)
+			continue
+		}
+		for _, x := range inflight {
+			x.conn.WaitQuiesce()
+		}
+		inflight = nil
 		if held != nil && st == held {
 			// the held connection is needed again: let its handler finish first
 			close(release)
@@ -737,9 +752,13 @@ func (r *refRun) runScenario(sc *RScen) {
 			continue
 		}
 		s2 := *s
-		s2.Hold, s2.HoldSink = false, false
+		s2.Hold, s2.HoldSink, s2.Par = false, false, false
 		r.feed(st, &s2, i+1)
 	}
+	for _, x := range inflight {
+		x.conn.WaitQuiesce()
+	}
+	inflight = nil
 	if held != nil {
 		close(release)
 		held.conn.WaitQuiesce()
@@ -781,7 +800,7 @@ func (r *refRun) runScenario(sc *RScen) {
 				t := &sc.Steps[i]
 				if t.C == s.C && t.Sid == s.Sid && !t.EOF {
 					t2 := *t
-					t2.Hold, t2.HoldSink = false, false
+					t2.Hold, t2.HoldSink, t2.Par = false, false, false
 					r.feed(st, &t2, i+1)
 				}
 			}
